@@ -54,25 +54,31 @@ ASSUMPTIONS = ['vp.models.edscript (script deriver + strict reference interprete
 ANCHORS = ['debian.debian_support:patches_from_ed_script', 'debian.debian_support:patch_lines']
 MUST_REACH = list(ANCHORS)
 
-PAIRS = {'quick': 100000, 'thorough': 5000000}
-MALFORMED = {'quick': 18000, 'thorough': 900000}      # base scripts; each yields 2 corruptions + up to 4 truncations
-DIFFE = {'quick': 3000, 'thorough': 300000}
+PAIRS = {'quick': 50000, 'thorough': 3000000}
+MALFORMED = {'quick': 10000, 'thorough': 500000}      # base scripts; each yields 2 corruptions + up to 4 truncations
+DIFFE = {'quick': 1500, 'thorough': 150000}
 
 FLOORS = {
-    'quick': {'nontrivial': 15000,
-              'monitors': {'M.apply': 40000, 'M.reject': 12000},
-              'counters': {'cmd:a@0': 500, 'cmd:a@end': 500, 'cmd:c1': 1000, 'cmd:cN': 1000, 'cmd:d1': 1000,
-                           'cmd:dN': 500, 'cmd:d@last': 500, 'cmd:c@last': 500, 'shape:adjacent-hunks': 500,
-                           'shape:old-empty': 100, 'shape:new-empty': 100, 'shape:full-replace': 100,
-                           'shape:hunks>=2': 2000, 'reject:truncation': 1500, 'reject:command': 2500}},
-    'thorough': {'nontrivial': 500000,
-                 'monitors': {'M.apply': 1000000, 'M.reject': 300000},
-                 'counters': {'cmd:a@0': 20000, 'cmd:a@end': 20000, 'cmd:c1': 50000, 'cmd:cN': 50000, 'cmd:d1': 50000,
-                              'cmd:dN': 20000, 'cmd:d@last': 20000, 'cmd:c@last': 20000, 'shape:adjacent-hunks': 20000,
-                              'shape:old-empty': 5000, 'shape:new-empty': 5000, 'shape:full-replace': 5000,
-                              'shape:hunks>=2': 100000, 'reject:truncation': 50000, 'reject:command': 80000}},
+    'quick': {'nontrivial': 40000,
+              'monitors': {'M.apply': 57000, 'M.reject': 50000},
+              'counters': {'cmd:a@0': 7500, 'cmd:a@end': 3500, 'cmd:a@mid': 3500, 'cmd:c1': 7500, 'cmd:cN': 4400,
+                           'cmd:d1': 5000, 'cmd:dN': 3200, 'cmd:c@first': 6000, 'cmd:d@first': 4000,
+                           'cmd:d@last': 5000, 'cmd:c@last': 8000, 'shape:adjacent-hunks': 6000,
+                           'shape:old-empty': 3000, 'shape:new-empty': 2800, 'shape:full-replace': 3500,
+                           'shape:hunks>=2': 8500, 'reject:truncation': 15000, 'reject:command': 10000,
+                           'mode:str': 28000, 'mode:bytes': 28000, 'src:list': 17000, 'src:iter': 17000,
+                           'src:file': 17000}},
+    'thorough': {'nontrivial': 1200000,
+                 'monitors': {'M.apply': 3000000, 'M.reject': 2400000},
+                 'counters': {'cmd:a@0': 380000, 'cmd:a@end': 180000, 'cmd:a@mid': 180000, 'cmd:c1': 400000,
+                              'cmd:cN': 220000, 'cmd:d1': 250000, 'cmd:dN': 160000, 'cmd:c@first': 320000,
+                              'cmd:d@first': 220000, 'cmd:d@last': 280000, 'cmd:c@last': 420000,
+                              'shape:adjacent-hunks': 300000, 'shape:old-empty': 160000, 'shape:new-empty': 160000,
+                              'shape:full-replace': 190000, 'shape:hunks>=2': 420000, 'reject:truncation': 750000,
+                              'reject:command': 500000, 'mode:str': 1500000, 'mode:bytes': 1500000,
+                              'src:list': 900000, 'src:iter': 900000, 'src:file': 900000}},
 }
-DIFFE_FLOOR = {'quick': 300, 'thorough': 40000}      # only demanded when `diff` is installed
+DIFFE_FLOOR = {'quick': 1500, 'thorough': 150000}      # only demanded when `diff` is installed
 
 ALPHA = ['a', 'b', 'c', '', 'x y', '..', '. ', ' .', '.x', '...', '1a', '2,3d', 'd', '0a', '3c', '1,2c', 'a.',
          'é', '١a', '\t', 'x\r', '.\r', 's/.//', 'w', 'q']
@@ -461,10 +467,10 @@ def run_case(ctx, case):
         raise ValueError('unknown case kind %r' % (kind,))
 
 
-LEVEL_TEXT = ('Runtime monitoring: patch_lines(lines, patches_from_ed_script(S)) of the live tree is executed on 2.6e4 (quick) '
-              '/ 1.1e6 (thorough) (old, new) pairs, as str and as bytes, with S derived independently (difflib opcodes -> '
+LEVEL_TEXT = ('Runtime monitoring: patch_lines(lines, patches_from_ed_script(S)) of the live tree is executed on 5.7e4 (quick) '
+              '/ 3.2e6 (thorough) (old, new) pairs, as str and as bytes, with S derived independently (difflib opcodes -> '
               'a/c/d in descending order; `diff -e` output) and handed over as list, iterator and file object; the mutated '
-              'list is compared with new.  1.5e4 / 5e5 scripts with exactly one corrupted command or a text block cut '
+              'list is compared with new.  5e4 / 2.5e6 scripts with exactly one corrupted command or a text block cut '
               'before its "." must raise ValueError.  A complete sub-space (old <= 4 lines, new <= 5 lines) is enumerated. '
               'Held-on-observed, not a proof.')
 LEVEL_NOTE = ('Trusted: CPython, difflib, vp.models.edscript (deriver + strict reference interpreter; every script is '
